@@ -74,7 +74,8 @@ def r1_progress(ctx):
         for f2, node, kind, det in scan().attr_sites(attr, ("cascade.gateway",)):
             if kind in ("store", "aug"):
                 n += 1
-                if f2.qual != fi.qual:
+                from .common import helper_of as _helper_of
+                if f2.qual != fi.qual and not _helper_of(repo, f2.qual, {fi.qual}):
                     ctx.violation("C18.R1", f2.qual, loc(f2, node), f"writer of Job.{attr}", f"{f2.qual} writes Job.{attr} outside maybe_update's timestamp guard")
     ctx.floor("C18.R1.writers", n, 1)
 
